@@ -2,6 +2,7 @@ SPECIFICATION Spec
 CONSTANTS
   Senders = {s1, s2}
   Receivers = {r1}
+  Closers = {}
   Cap = 1
   MaxOps = 2
   SpinMax = 1
